@@ -99,11 +99,11 @@ def order_tuple(k):
     return (1 if k["BO"] == -1 else 0, 0 if k["BO"] == -1 else k["BO"], 0 if k["BO"] == -1 else k["NO"], 0 if k["BO"] == -1 else k["start"])
 
 
-def rec_on(g, qname, path, ps, pe, extra=()):
+def rec_on(g, qname, path, ps, pe, extra=(), strand="+"):
     steps = rgfa.parse_steps(path)
     total = sum(g.segs[n].LN for o, n in steps)
     n = pe - ps
-    return rgfa.Rec(qname, n + 2, 1, 1 + n, "+", path, total, ps, pe, n, n, 60, ["tp:A:P", "NM:i:0", f"cg:Z:{n}="] + list(extra))
+    return rgfa.Rec(qname, n + 2, 1, 1 + n, strand, path, total, ps, pe, n, n, 60, ["tp:A:P", "NM:i:0", f"cg:Z:{n}="] + list(extra))
 
 
 def run_sort(scratch, gfa_path, gaf_path, outgaf=None, outind=None, bgzip=False):
@@ -137,10 +137,10 @@ def multi_chrom_graph(nchrom, decl="alt"):
     """1-3 chromosomes, each a bubble chain; chr1 has an inversion block (scaffold traversable in both orientations)"""
     specs = [
         (["snp", "inversion", "insertion"], "chr1", 0, "hA#1#c", 5),
-        (["deletion"], "chr2", 40, "hB#1#c", 2),
+        (["deletion"], "chr2%2Falt", 40, "hB#1#c", 2),  # a contig name with a percent sign (URL-encoded names occur in assemblies)
         (["triallelic", "link"], "HLA-A*01:01", 70, "hC#1#c", 2),  # a reference contig name with colons (GRCh38 alt contigs)
     ][:nchrom]
-    chains = [gen.Chain(b, chrom=c, id_base=i, hap=h, decl=decl, scaffold_len=sl, id_style=("odd" if c == "chr2" else "s")) for b, c, i, h, sl in specs]
+    chains = [gen.Chain(b, chrom=c, id_base=i, hap=h, decl=decl, scaffold_len=sl, id_style=("odd" if c.startswith("chr2") else "s")) for b, c, i, h, sl in specs]
     return gen.merge_graphs([c.g for c in chains]), chains
 
 
